@@ -878,3 +878,48 @@ pub fn largest_body_lockstep(cov: &mut Cov) -> Option<Found> {
     }
     None
 }
+
+/// C18: the database's write lock is held by another process for 3.5 s (within the 5 s lock-wait
+/// budget) while a write request arrives. Whatever the server answers: if it answers with an
+/// error, the stored state must be - and stay, once the lock is released - what it was.
+pub fn lock_held_part(cov: &mut Cov) -> Option<Found> {
+    for (which, hold_ms) in [("AddVersion", 3500u64), ("AddSnapshot", 2600)] {
+        let Ok(mut subj) = Subject::new(Kind::SQL_HTTP, Config::default()) else { continue };
+        let c = Uuid::new_v4();
+        let Resp::AddOk { vid: v1, .. } = subj.exec(c, &Req::AddVersion { parent: Uuid::nil(), data: b"one".to_vec() }) else { continue };
+        let db = subj.db_path()?;
+        let clients = [c];
+        let ids = [v1];
+        let before = crate::dump::dump_storage(subj.storage.as_ref(), &clients, &ids);
+        let holder = std::thread::spawn(move || {
+            if let Ok(con) = rusqlite::Connection::open(&db) {
+                if con.execute_batch("BEGIN IMMEDIATE").is_ok() {
+                    std::thread::sleep(std::time::Duration::from_millis(hold_ms));
+                    let _ = con.execute_batch("ROLLBACK");
+                }
+            }
+        });
+        std::thread::sleep(std::time::Duration::from_millis(150));
+        let t0 = std::time::Instant::now();
+        let req = if which == "AddVersion" { Req::AddVersion { parent: v1, data: b"two".to_vec() } } else { Req::AddSnapshot { vid: v1, data: b"snap".to_vec() } };
+        let resp = subj.exec(c, &req);
+        let waited = t0.elapsed();
+        let _ = holder.join();
+        cov.evaluations += 1;
+        cov.hit(format!("write-lock-held-{}s:{which}:{}", hold_ms / 1000, resp.outcome()));
+        if let Resp::Error(e) = &resp {
+            // the lock is free now; give an abandoned piece of work time to finish
+            std::thread::sleep(std::time::Duration::from_millis(2500));
+            let after = crate::dump::dump_storage(subj.storage.as_ref(), &clients, &ids);
+            if before != after {
+                return Some(Found {
+                    property: "C18".into(),
+                    signature: "C18:lock held".into(),
+                    msg: format!("another process held the database's write lock for {} ms; the {which} that arrived meanwhile was answered with an error after {} ms ({e}), yet once the lock was released the stored state changed: {}", hold_ms, waited.as_millis(), before.diff(&after)),
+                    replay: json!({"origin": "lock-held", "case": 0}),
+                });
+            }
+        }
+    }
+    None
+}
